@@ -135,3 +135,7 @@ META = {
         'Master.reschedule'],
     'reach_required': ['published', 'reloaded', 'healthy_record'],
 }
+
+
+def weight(name, spec):
+    return 3 if 'frozen' in name or 'schedule' in name else 1
